@@ -63,8 +63,8 @@ _TOKEN = re.compile('|'.join([
     r'(?P<ws>[ \t\f\v]+)',
     r'(?P<bc>/\*.*?\*/)',                       # 6.4.9: a comment is replaced by one space (phase 3)
     r'(?P<lc>//[^\n]*)',
-    r'(?P<str>(?:u8|u|U|L)?"(?:[^"\\\n]|' + _ESC + r')*")',    # 6.4.5: the prefix binds to an immediately following quote
-    r"(?P<chr>(?:u8|u|U|L)?'(?:[^'\\\n]|" + _ESC + r")*')",
+    r'(?P<str>(?:u8|u|U|L)?"(?:[^"\\\n\x00]|' + _ESC + r')*")',    # 6.4.5: the prefix binds to an immediately following quote
+    r"(?P<chr>(?:u8|u|U|L)?'(?:[^'\\\n\x00]|" + _ESC + r")*')",
     r'(?P<num>\.?[0-9](?:[eEpP][+-]|[0-9A-Za-z_.])*)',         # 6.4.8 pp-number
     r'(?P<id>[A-Za-z_][A-Za-z0-9_]*)',                          # 6.4.2 (no UCNs / extended characters: unsupported by design)
     '(?P<p>' + '|'.join(re.escape(p) for p in sorted(PUNCT, key=lambda p: -len(p))) + ')',   # longest punctuator first
